@@ -88,7 +88,7 @@ def lean_build(prop, cfg, log):
     r = sh(["lake", "env", "lean", audit], cwd=LEAN, timeout=1200)
     log.write(r.stdout)
     axioms = {}
-    for mm in re.finditer(r"'([^']+)' (depends on axioms: \[([^\]]*)\]|does not depend on any axioms)", r.stdout):
+    for mm in re.finditer(r"^'(.+)' (depends on axioms: \[([^\]]*)\]|does not depend on any axioms)", r.stdout, re.M):
         axioms[mm.group(1)] = [a.strip() for a in (mm.group(3) or "").replace("\n", " ").split(",") if a.strip()]
     if r.returncode != 0:
         problems.append("axiom audit failed to run: " + r.stdout[:300])
@@ -182,36 +182,19 @@ def main():
         run_cases(prop, cfg, tier, seed, replay, wd, log, counters, violations, tie_broken, stats)
     elif hb_ok:
         notes.append("driver not built")
-    # classification of broken obligations
-    if not lean_ok or not extract_ok or not hb_ok:
-        why = "; ".join(lproblems + notes + ([] if hb_ok else ["harness build failed"]))
-        real = [v for v in violations if not v[3]]
-        if not real:
-            rp = os.path.join(VERIF, "replays", f"{prop}-obligation.txt")
-            with open(rp, "w") as f:
-                f.write(f"property {prop}: proof obligation / tie no longer checks\n{why}\n")
-                f.write("theorems: " + ", ".join(t for _, t in theorems) + "\n")
-            violations.append(("obligation", "obligation " + why, rp, True))
-    if tie_broken and not [v for v in violations if not v[3]]:
-        rp = os.path.join(VERIF, "replays", f"{prop}-tie.txt")
-        with open(rp, "w") as f:
-            f.write(f"property {prop}: correspondence model<->implementation broken on {len(tie_broken)} case(s); "
-                    f"the implementation's answers still satisfy the specification oracle on every explored case\n")
-            f.write(f"correspondence: {cfg.get('tie', 'model = implementation on identical inputs')}\n")
-            for t in tie_broken[:5]:
-                f.write(t + "\n")
-        violations.append(("tie", "tie-broken " + tie_broken[0][:200], rp, True))
-
     # known findings
     known = load_known()
     unlisted = []
     printed_known = set()
-    for v in violations:
-        hit = None
+
+    def match_known(v):
         for k in known:
             if k.get("status") == "finding" and k.get("property") == prop and re.search(k["match"], v[1], re.S):
-                hit = k
-                break
+                return k
+        return None
+
+    for v in violations:
+        hit = match_known(v)
         if hit:
             counters["known"] += 1
             if hit["id"] not in printed_known:
@@ -219,6 +202,25 @@ def main():
                 print(f"KNOWN-FINDING: property={prop} {hit['what']}")
         else:
             unlisted.append(v)
+    # a broken proof obligation / tie is a violation by itself: when no (unlisted) failing input was
+    # found it is reported as such, naming the theorem or correspondence that no longer checks
+    if not lean_ok or not extract_ok or not hb_ok:
+        why = "; ".join(lproblems + notes + ([] if hb_ok else ["harness build failed"]))
+        if not [v for v in unlisted if not v[3]]:
+            rp = os.path.join(VERIF, "replays", f"{prop}-obligation.txt")
+            with open(rp, "w") as f:
+                f.write(f"property {prop}: proof obligation / tie no longer checks\n{why}\n")
+                f.write("theorems: " + ", ".join(t for _, t in theorems) + "\n")
+            unlisted.append(("obligation", "obligation " + why, rp, True))
+    if tie_broken and not [v for v in unlisted if not v[3]]:
+        rp = os.path.join(VERIF, "replays", f"{prop}-tie.txt")
+        with open(rp, "w") as f:
+            f.write(f"property {prop}: correspondence model<->implementation broken on {len(tie_broken)} case(s); "
+                    f"no explored case violates the specification oracle beyond the known findings\n")
+            f.write(f"correspondence: {cfg.get('tie', 'model = implementation on identical inputs')}\n")
+            for t in tie_broken[:5]:
+                f.write(t + "\n")
+        unlisted.append(("tie", "tie-broken " + tie_broken[0][:200], rp, True))
 
     wall = time.time() - t0
     nthm = len(theorems)
